@@ -448,6 +448,19 @@ pub fn run(mut ctx: Ctx) -> ! {
         move || pair_strategy(authors, logs, ops),
         check_pair,
     );
+    // Many short logs per author: one-sided logs in front of / behind shared ones (added after the
+    // seeded change C19, which needs two remote-only logs sorting before a shared log).
+    ctx.run_prop(
+        Part::new(
+            "pair_many_logs",
+            "as `pair`, but 1-2 authors x 1-6 logs x 0-4 operations: many combinations of one-sided and shared logs of one author;              non-trivial = both sides must send something or a side holds a pruned window",
+            600,
+            20_000,
+        )
+        .min_nontrivial(0.3),
+        move || pair_strategy(2, 6, 4),
+        check_pair,
+    );
     ctx.run_prop(
         Part::new(
             "scripted_remote_duplicates",
